@@ -254,6 +254,10 @@ class Gen:
             plan.append((rng.randint(0, 8), ("throw",)))
         return sorted(plan)
 
+    def start_plan(self):
+        """submissions from the entry behaviours that run during start() (no throws: an exception leaves start())"""
+        return [(i, c) for i, c in self.gen_plan() if c[0] != "throw"]
+
     def completion_guard_ids(self, md):
         return [r["id"] for _, m in walk(md["root"]) for r in all_rows(m) if r["guard"] and r["trig"] == "none"]
 
@@ -265,7 +269,7 @@ class Gen:
             self._fixed = {g: (rng.random() < 0.6) for g in cg}
         else:
             self._fixed = {}
-        ops = [("start", self.val(gids), [])]
+        ops = [("start", self.val(gids), self.start_plan())]
         pay = 100
         for _ in range(n):
             x = rng.random()
@@ -276,7 +280,7 @@ class Gen:
                 ops.append((rng.choice(["drain", "drain1"]), self.val(gids), self.gen_plan()))
             elif x < 0.22:
                 ops.append(("stop", []))
-                ops.append(("start", self.val(gids), []))
+                ops.append(("start", self.val(gids), self.start_plan()))
             else:
                 ops.append(("process", rng.choice(self.events), pay, self.val(gids), self.gen_plan()))
         return ops
@@ -285,7 +289,7 @@ class Gen:
         """operation lists aimed at the queue: bursts of enqueue_event followed by single steps and full drains"""
         rng = self.rng
         gids = self.guard_ids(md)
-        ops = [("start", self.val(gids), [])]
+        ops = [("start", self.val(gids), self.start_plan())]
         pay = 200
         while len(ops) < n:
             k = rng.randint(1, 4)
